@@ -24,6 +24,7 @@ FORBIDDEN = re.compile(r"\b(sorry|admit|native_decide|bv_decide|implemented_by)\
 
 ENV = dict(os.environ)
 ENV["CARGO_NET_OFFLINE"] = "true"
+ENV["TZ"] = "UTC"   # chrono::Local round trip in time_with_timezone is the identity
 
 for d in (WORK, EVIDENCE, REPLAYS):
     os.makedirs(d, exist_ok=True)
